@@ -2,3 +2,4 @@ import Ucfg.Props.C20
 import Ucfg.Props.C17
 import Ucfg.Props.C01
 import Ucfg.Props.C16
+import Ucfg.Props.C12
